@@ -108,7 +108,10 @@ impl Controller for StaticResourceController {
     }
 
     fn process(request: &Request, mut response: Response, _connection: &ConnectionInfo) -> Response {
-        let boxed_content_range_list = StaticResourceController::process_static_resources(&request);
+        let mut boxed_content_range_list = StaticResourceController::process_static_resources(&request);
+        if request.get_header(Header::_RANGE.to_string()).is_some() && boxed_content_range_list.is_ok() {
+            boxed_content_range_list = StaticResourceController::fit_content_range_list_to_file(boxed_content_range_list.unwrap());
+        }
         if boxed_content_range_list.is_ok() {
             let content_range_list = boxed_content_range_list.unwrap();
 
@@ -217,7 +220,10 @@ impl StaticResourceController {
     }
 
     pub fn process_request(request: &Request, mut response: Response) -> Response {
-        let boxed_content_range_list = StaticResourceController::process_static_resources(&request);
+        let mut boxed_content_range_list = StaticResourceController::process_static_resources(&request);
+        if request.get_header(Header::_RANGE.to_string()).is_some() && boxed_content_range_list.is_ok() {
+            boxed_content_range_list = StaticResourceController::fit_content_range_list_to_file(boxed_content_range_list.unwrap());
+        }
         if boxed_content_range_list.is_ok() {
             let content_range_list = boxed_content_range_list.unwrap();
 
@@ -271,6 +277,30 @@ impl StaticResourceController {
 
 
         response
+    }
+
+    /// Content-Range of a partial response names the last byte actually sent: `end` can not
+    /// exceed `size - 1`, and a range that starts at or after the end of the file can not be satisfied
+    pub fn fit_content_range_list_to_file(content_range_list: Vec<ContentRange>) -> Result<Vec<ContentRange>, Error> {
+        let mut fitted_content_range_list : Vec<ContentRange> = vec![];
+        for mut content_range in content_range_list {
+            let boxed_size = content_range.size.parse::<u64>();
+            if boxed_size.is_ok() {
+                let size = boxed_size.unwrap();
+                if content_range.range.start >= size {
+                    let error = Error {
+                        status_code_reason_phrase: STATUS_CODE_REASON_PHRASE.n416_range_not_satisfiable,
+                        message: Range::ERROR_START_IS_BIGGER_THAN_FILESIZE_CONTENT_RANGE.to_string()
+                    };
+                    return Err(error)
+                }
+                if content_range.range.end >= size {
+                    content_range.range.end = size - 1;
+                }
+            }
+            fitted_content_range_list.push(content_range);
+        }
+        Ok(fitted_content_range_list)
     }
 
     pub fn process_static_resources(request: &Request) -> Result<Vec<ContentRange>, Error> {
